@@ -225,3 +225,37 @@ Proof.
   - intros sched fuel st st'. apply explore_f_complete.
   - apply ingest_empty_when_done.
 Qed.
+
+(* ------------------------------------------------------------------ Exists agrees with Fetch *)
+Lemma file_exists_iff_fetch (H : str -> str -> str) s name d :
+  file_ok H s -> (file_exists s name d = true <-> exists bs, file_fetch s name d = Some bs).
+Proof.
+  intros [Ok1 _]. unfold file_exists, file_fetch.
+  assert (Core : (match assoc_get (f_d2p s) (d_dg d) with
+                  | Some _ => true
+                  | None => match mem_get (f_fb s) d with Some _ => true | None => false end
+                  end = true) <->
+                 exists bs, match assoc_get (f_d2p s) (d_dg d) with
+                            | Some p => assoc_get (f_files s) p
+                            | None => mem_get (f_fb s) d
+                            end = Some bs).
+  { destruct (assoc_get (f_d2p s) (d_dg d)) as [p|] eqn:G.
+    - destruct (Ok1 _ _ G) as (bs & Fb & _). split; [intros _; exists bs; exact Fb|reflexivity].
+    - destruct (mem_get (f_fb s) d) as [c|]; split; try discriminate; eauto. intros [bs X]; discriminate. }
+  destruct name as [|c n0]; [exact Core|].
+  destruct (name_in (c :: n0) (f_names s)); cbn [negb]; [exact Core|].
+  split; [discriminate|intros [bs X]; discriminate].
+Qed.
+
+Lemma exists_iff_fetch (H : str -> str -> str) :
+  (forall s d, valid_digest (d_dg d) = true ->
+     (oci_exists s d = (None, true) <-> exists bs, oci_get s (d_dg d) = Some bs)) /\
+  (forall s name d, file_reach H s ->
+     (file_exists s name d = true <-> exists bs, file_fetch s name d = Some bs)).
+Proof.
+  split.
+  - intros s d V. unfold oci_exists. rewrite V. cbn [negb].
+    destruct (oci_get s (d_dg d)) as [c|]; split; try discriminate; eauto.
+    + intros [bs X]; discriminate.
+  - intros s name d R. apply (file_exists_iff_fetch H). apply file_reach_ok. exact R.
+Qed.
